@@ -303,7 +303,15 @@ where
 	}
 
 	let commit = w.calc_commit_for_cache(keychain_mask, output.value, &output.key_id)?;
+	let current_child_index = w.current_child_index(&parent_key_id)?;
 	let mut batch = w.batch(keychain_mask)?;
+
+	// From the moment the output is in the wallet the next path handed out for its account
+	// lies beyond it, also when the scan does not get to its end (where the indices of all
+	// accounts are set)
+	if output.n_child >= current_child_index {
+		batch.save_child_index(&parent_key_id, output.n_child + 1)?;
+	}
 
 	if !found_parents.contains_key(&parent_key_id) {
 		found_parents.insert(parent_key_id.clone(), 0);
@@ -672,6 +680,15 @@ where
 	let accounts: Vec<Identifier> = w.acct_path_iter().map(|m| m.path).collect();
 	let mut labels: Vec<String> = w.acct_path_iter().map(|m| m.label).collect();
 	let mut acct_index = accounts.len();
+	// (also for what an earlier scan restored before it was interrupted: a repeated scan finds
+	// nothing missing any more, but the accounts and indices still have to be set)
+	let recorded: Vec<(Identifier, u32)> = w.iter().map(|o| (o.root_key_id, o.n_child)).collect();
+	for (path, n_child) in recorded {
+		let e = found_parents.entry(path).or_insert(0);
+		if n_child > *e {
+			*e = n_child;
+		}
+	}
 	for (path, max_child_index) in found_parents.iter() {
 		// Only restore paths that don't exist
 		if !accounts.contains(path) {
